@@ -177,12 +177,15 @@ func devHarness(args []string) {
 		}
 	}
 	t0 := time.Now()
-	l, err := load(nil)
+	var l *loaded
+	var err error
+	if h.Inpkg {
+		l, err = loadInpkg()
+	} else {
+		l, err = load(nil)
+	}
 	if err != nil {
 		fatal("%v", err)
-	}
-	if l.skipped != "" {
-		fmt.Println("NOTE: in-package harnesses skipped:", l.skipped)
 	}
 	fmt.Printf("loaded in %.1fs; harness functions: %d\n", time.Since(t0).Seconds(), len(l.fnNames))
 	cfg := mkConfig(l, h, t, false)
